@@ -220,7 +220,7 @@ pub struct Interp<'a> {
     steps: usize,
 }
 
-const MAX_BUF: usize = 2048;
+const MAX_BUF: usize = 1024;
 const MAX_STEPS: usize = 200_000;
 
 impl<'a> Interp<'a> {
